@@ -13,7 +13,7 @@ let rec pos_of_int (n : int) : positive =
 let z_of_small (n : int) : coq_Z = if n = 0 then Z0 else if n > 0 then Zpos (pos_of_int n) else Zneg (pos_of_int (-n))
 let z10 = z_of_small 10
 let z_of_string (s : string) : coq_Z =
-  let neg = S.length s > 0 && s.[0] = '-' in
+  let neg = S.length s > 0 && S.get s 0 = '-' in
   let acc = ref Z0 in
   S.iteri (fun i c -> if i = 0 && neg then () else begin
     if c < '0' || c > '9' then failwith ("bad integer: " ^ s);
@@ -102,8 +102,8 @@ let params_of (t : string list) : Sched.params = match t with
 let optz = function "-" -> None | s -> Some (z s)
 let op_of (s : string) : Sched.op =
   if s = "n" then Sched.Next
-  else if s.[0] = 'f' then Sched.Fin (z (S.sub s 1 (S.length s - 1)))
-  else if s.[0] = 'r' then begin
+  else if S.get s 0 = 'f' then Sched.Fin (z (S.sub s 1 (S.length s - 1)))
+  else if S.get s 0 = 'r' then begin
     match S.split_on_char ':' (S.sub s 1 (S.length s - 1)) with
     | [k; lim] -> Sched.Run (z k, nat_of_int (int_of_string lim))
     | _ -> failwith ("op " ^ s) end
@@ -134,6 +134,43 @@ let run_sched (id : string) (t : string list) =
       print_string (mon2s m ^ "\n") end
   | _ -> failwith "sched case"
 
+(* ---- Coq strings <-> OCaml strings (ActVal) ---- *)
+let ascii_of_char (c : char) : Ascii.ascii =
+  let n = Char.code c in let b i = (n lsr i) land 1 = 1 in Ascii.Ascii (b 0, b 1, b 2, b 3, b 4, b 5, b 6, b 7)
+let char_of_ascii (Ascii.Ascii (b0, b1, b2, b3, b4, b5, b6, b7)) : char =
+  let v b i = if b then 1 lsl i else 0 in Char.chr (v b0 0 + v b1 1 + v b2 2 + v b3 3 + v b4 4 + v b5 5 + v b6 6 + v b7 7)
+let rec ostr (s : String.string) : string = match s with String.EmptyString -> "" | String.String (c, r) -> S.make 1 (char_of_ascii c) ^ ostr r
+let cstr (s : string) : String.string = S.fold_right (fun c acc -> String.String (ascii_of_char c, acc)) s String.EmptyString
+let bool_of = function "T" -> true | "F" -> false | s -> failwith ("bool " ^ s)
+let act_of (t : string list) : action = match t with
+  | ["F"; a; b; wi; wa; st] -> Forward (z_of_string a, z_of_string b, bool_of wi, bool_of wa, (function "RAM" -> RAM | "DISK" -> DISK | "WORK" -> WORK | _ -> NONE) st)
+  | ["R"; a; b; c] -> Reverse (z_of_string a, z_of_string b, bool_of c)
+  | ["C"; n; a; b] -> let f = (function "RAM" -> RAM | "DISK" -> DISK | "WORK" -> WORK | _ -> NONE) in Copy (z_of_string n, f a, f b)
+  | ["M"; n; a; b] -> let f = (function "RAM" -> RAM | "DISK" -> DISK | "WORK" -> WORK | _ -> NONE) in Move (z_of_string n, f a, f b)
+  | ["EF"] -> EndForward | ["ER"] -> EndReverse
+  | _ -> failwith ("action " ^ S.concat " " t)
+let rec split_slash (t : string list) (cur : string list) : string list list = match t with
+  | [] -> [L.rev cur] | "/" :: r -> L.rev cur :: split_slash r [] | x :: r -> split_slash r (x :: cur)
+(* V <id> act <a> / <b> / <k> / <text> : repr(a), a == b, len(a), list(a) (short spans only), k in a, eval(repr(a)) == a, and what the
+   model reads out of <text> (an action text as Python printed it, with '_' for ' ') *)
+let act_case (t : string list) : string =
+  match split_slash t [] with
+  | [ta; tb; [k]; [txt]] ->
+    let a = act_of ta and b = act_of tb in
+    let r2s f = function Actions.Ok v -> f v | Actions.Err e -> "EXC:" ^ exn2s e in
+    let span = match a with Forward (n0, n1, _, _, _) | Reverse (n1, n0, _) -> Some (BinInt.Z.sub n1 n0) | _ -> None in
+    let small = match span with Some d -> BinInt.Z.ltb d (z_of_small 65) | None -> true in
+    let txt' = S.map (fun c -> if c = '_' then ' ' else c) txt in
+    S.concat ";" [
+      "repr=" ^ ostr (ActVal.act_repr a);
+      "eq=" ^ b2s (act_eqb a b);
+      "len=" ^ r2s string_of_z (ActVal.act_len a);
+      "iter=" ^ (if small then r2s (fun l -> S.concat "," (L.map string_of_z l)) (ActVal.act_iter a) else "skip");
+      "mem=" ^ r2s b2s (ActVal.act_mem a (z_of_string k));
+      "rt=" ^ (match ActVal.act_parse (ActVal.act_repr a) with Some a' -> b2s (act_eqb a a') | None -> "none");
+      "read=" ^ (match ActVal.act_parse (cstr txt') with Some c -> act2s c | None -> "none") ]
+  | _ -> failwith ("act case: " ^ S.concat " " t)
+
 let run_val (id : string) (t : string list) =
   print_string ("#" ^ id ^ "\n");
   let out = match t with
@@ -159,6 +196,7 @@ let run_val (id : string) (t : string list) =
   | ["seq"; k; n; r; d; uf; ub; wd; rd] -> res2s (fun o -> S.concat " " (L.map op2s o)) (RevConv.sequence (rk_of k) (z n) (z r) (z d) (z uf) (z ub) (z wd) (z rd))
   | ["mxrr"; cm; uf; rd; wd] -> string_of_z (RevSeq.mxrr (z cm) (z uf) (z rd) (z wd))
   | "argmin" :: l -> string_of_z (RevSeq.argmin (L.map z l))
+  | "act" :: rest -> act_case rest
   | ["pairs"; _; _] -> "ok"   (* equality laws of directly constructed actions: decided on the implementation; the model's act_eqb is characterised in Props/C18 *)
   | ["beta"; x; y] -> string_of_z (BinomDef.beta (nat_of_int (int_of_string x)) (nat_of_int (int_of_string y)))
   | _ -> failwith ("val case: " ^ S.concat " " t) in
